@@ -152,6 +152,16 @@ class TokString(Token):
         super().__init__(*args, **kwargs)
 
     @property
+    def value(self):
+        """The string's bytes. (A long bracket string skips a leading newline.)"""
+        if self._multiline_quote is not None:
+            if self._data.startswith(b'\r\n'):
+                return self._data[2:]
+            if self._data.startswith(b'\n'):
+                return self._data[1:]
+        return self._data
+
+    @property
     def code(self):
         if self._multiline_quote is not None:
             return (b'[' + self._multiline_quote + b'[' +
